@@ -46,6 +46,19 @@ fixed("C15", "error-position:negative-length", "a6a1165",
 fixed("C15", "escape:RecursionError", "4b0c267",
       "from_string('(&'*600 + '(a=b)' + ')'*600) raised RecursionError instead of FilterSyntaxError", {"text": "(&" * 600 + "(a=b)" + ")" * 600})
 
+fixed("C16", "reparse-exc:text-with-pipe:ValueError:value is not a valid ObjectCla", "a78e749",
+      "str(ObjectClassDescription('1.2', description='a|b')) wrote 'a\\7cb' and from_string of that text raised ValueError ('|' escaped by the writer, unknown to the reader)",
+      {"kind": "oc", "definition": {"oid": "1.2", "names": [], "description": "a|b", "obsolete": False, "super_types": [], "kind": "STRUCTURAL", "must": [], "may": [], "extensions": {}}})
+fixed("C17", "sentence-rejected:ext-name-followed-by-2+-spaces", "7e652cb",
+      "from_string(\"( 1.2 X-A  'v' )\") (two spaces after the extension name) raised ValueError('not enough values to unpack') or returned wrong extension names/values",
+      {"kind": "oc", "text": "( 1.2 X-A  'v' )"})
+fixed("C18", "super-polynomial:schema:desc-unterminated", "db2dcf0",
+      "ObjectClassDescription.from_string(\"( 1.2 DESC '\" + 'a'*n) took time x4 per +2 characters (0.36 s at n=22, cap at n=26): nested quantifier ([^'\\\\]+)+",
+      {"family": "desc-unterminated", "target": "schema-oc", "desc": {"hand": "desc-unterminated"}})
+fixed("C18", "super-polynomial:filter:oid-attr-dotted-bad-suffix", "3b4f209",
+      "LDAPFilter.from_string('(' + '1.'*n + '1x=a)') took time x4 per +2 arcs (cap at n=48): ambiguous alternatives [0-9] | [1-9][0-9]* under a star",
+      {"family": "oid-attr-dotted-bad-suffix", "target": "filter", "desc": {"hand": "oid-attr-dotted-bad-suffix"}})
+
 # ---- genuine, recorded, not repaired (reason in 'what'); keyed by mechanism, classifier lives in the check
 PIN = "Not repaired: the repository's own tests pin this behaviour, so a fix cannot pass the unedited suite."
 open_("C03", "unbind-constructed-bit",
